@@ -136,6 +136,16 @@ let class_of = function
 
 let dummy_copier = { c_root = Node (BinNums.Z0, Datatypes.O, Datatypes.O, false, []); c_defaults = new_options }
 
+(* an argument of the package-level CopyTo: `nil` = the nil interface, (a TY VAL) = VAL of dynamic type TY *)
+let anyarg_of = function
+  | A "nil" -> None
+  | L [A "a"; t; v] -> Some (ty_of t, val_of v)
+  | _ -> failwith "anyarg"
+
+let ncall_of = function
+  | L [A "pureg"; a; b] -> CopierNilModel.NPure (anyarg_of a, anyarg_of b)
+  | k -> CopierNilModel.NCall (call_of k)
+
 let run ?(nozs=false) pinned =
   iter_lines (fun line ->
     let out =
@@ -144,7 +154,7 @@ let run ?(nozs=false) pinned =
         | L [A "case"; L [A "src"; st]; L [A "dst"; dt]; L (A "opts" :: os); L (A "calls" :: cs)] ->
           let st = ty_of st and dt = ty_of dt in
           let os = List.map opt_of os in
-          let cs = List.map call_of cs in
+          let cs = List.map ncall_of cs in
           let b = Buffer.create 256 in
           let ctor = (if pinned then new_reflect_copier_pinned else new_reflect_copier) st dt os in
           (match ctor with
@@ -155,16 +165,28 @@ let run ?(nozs=false) pinned =
             Buffer.add_string b " | ";
             let cop = (match ctor, k with
                 | COk c, _ -> Some c
-                | _, CallPure _ -> Some dummy_copier
+                | _, CopierNilModel.NCall (CallPure _) | _, CopierNilModel.NPure _ -> Some dummy_copier
                 | _, _ -> None) in
             match cop with
             | None -> Buffer.add_string b "skip -"
             | Some c ->
-              let (p, stt) = (if nozs then run_call_nozeroskip else run_call) c st dt k in
+              (* the code as it is now (after the nil-argument fix); `pinned` = before that fix too *)
+              let (p, stt) =
+                if pinned then
+                  (match k with
+                   | CopierNilModel.NCall k' -> let (p, s) = run_call c st dt k' in (p, CopierNilModel.NStat s)
+                   | CopierNilModel.NPure (x, y) -> CopierNilModel.pure_copy_to_pinned x y)
+                else (if nozs then CopierNilModel.run_call_now_nozeroskip else CopierNilModel.run_call_now) c st dt k in
+              let generic = (match k with CopierNilModel.NPure _ -> true | _ -> false) in
               (match stt with
-               | SPanic -> Buffer.add_string b "panic -"
+               | CopierNilModel.NStat SPanic -> Buffer.add_string b "panic -"
                | _ ->
-                 Buffer.add_string b (match stt with SOk -> "ok " | SErr e -> "err:" ^ class_of e ^ " " | SPanic -> "");
+                 Buffer.add_string b (match stt with
+                   | CopierNilModel.NNil -> "err:nil "
+                   | CopierNilModel.NStat SOk -> "ok "
+                   | CopierNilModel.NStat (SErr e) -> "err:" ^ class_of e ^ " "
+                   | CopierNilModel.NStat SPanic -> "");
+                 if generic then Buffer.add_string b "-" else
                  (match p with
                   | None -> Buffer.add_string b "nil"
                   | Some v -> show_val b v))) cs;
@@ -214,7 +236,7 @@ let run_mem () =
         | L [A "case"; L [A "src"; st]; L [A "dst"; dt]; L (A "opts" :: os); L (A "calls" :: cs)] ->
           let st = ty_of st and dt = ty_of dt in
           let os = List.map opt_of os in
-          let cs = List.map call_of cs in
+          let cs = List.map (function L (A "pureg" :: _) -> CallPure (VNum BinNums.Z0, VNum BinNums.Z0) | k -> call_of k) cs in
           let b = Buffer.create 256 in
           let ctor = new_reflect_copier st dt os in
           (match ctor with
